@@ -41,8 +41,12 @@ prop(
     engine="pure",
     level="exploration",
     level_text=("exhaustive over the project-type enumeration and the single-marker table, seeded exploration over marker "
-                "chains on a real filesystem; the oracle is an independent marker table applied to the same directories"),
-    level_note="trusts the filesystem and the transcribed marker tables; the enumeration is complete by hook H4's exhaustive match",
+                "chains on a real filesystem; the oracle is an independent marker table applied to the same directories; start "
+                "paths are directories, files, or paths with 1-3 missing trailing components; a final phase puts markers into "
+                "the filesystem root itself (the last shard confines itself with chroot to a scratch tree, whose top then is /)"),
+    level_note=("trusts the filesystem and the transcribed marker tables; the enumeration is complete by hook H4's exhaustive match; "
+                "the filesystem-root phase needs CAP_SYS_CHROOT and says so in the evidence notes when it cannot run; unlistable "
+                "ancestors are not exercised (the checks run as root, which bypasses directory permissions)"),
     technique="reference-model monitor over real directory trees (exhaustive table + seeded random chains)",
     rule=("exhaustive part: every ProjectType (hook H4) classified vcs XOR soft and equal to its documented class; every "
           "recognised marker name alone in a directory as a file and as a directory. Generated part: chains root/d0/../dk "
@@ -128,9 +132,10 @@ prop(
     title="A job never has two live processes at once",
     engine="simjob",
     level="fault_enumeration",
-    level_text=("bounded-exhaustive control sequences (length <= 3 quick / 4 thorough over the 14-letter public alphabet) x child "
+    level_text=("bounded-exhaustive control sequences (length <= 3 quick / 4 thorough over the public alphabet: the 14 Job methods plus the "
+                "directly sendable ContinueTryGracefulRestart control and a graceful restart with the forceful signal) x child "
                 "behaviour classes x send patterns (burst, gaps g/2, g, 2g+1) x every single injected spawn / kill / signal / wait "
-                "failure position, then seeded random sequences of length 5-16; an online monitor inside the simulated-child layer "
+                "failure position, then seeded random sequences of length 5-16 (graceful controls with any signal); an online monitor inside the simulated-child layer "
                 "asserts at every spawn, under the same lock as the state it shadows, that no earlier child is spawned-and-unreaped "
                 "(a child dropped without being reaped counts); an offline recount over the event log cross-checks it"),
     level_note=_SIM_NOTE,
@@ -206,7 +211,9 @@ prop(
                 "delivered (a) as a burst to an idle job task, (b) enqueued behind a gate (run_async blocked on a harness latch) and "
                 "released, (c) while a grace timer is armed, (d) followed by delete_now behind a gate; then random histories. Markers "
                 "carry unique ids. Oracles: per priority FIFO and exactly-once (log invariants), ticket-implies-ran, and the full "
-                "cross-priority order by trace inclusion in the reference model"),
+                "cross-priority order by trace inclusion in the reference model; one random scenario in 25 installs a suspending "
+                "async spawn hook (starting then takes virtual time) and is judged by the invariant 'the effect of a control - the "
+                "spawn attempt of a restart, the marker of a run - precedes the resolution of its ticket in the log'"),
     level_note=_SIM_NOTE,
     technique="offline ordering checker over uniquely identified marker events + reference-model trace inclusion (virtual time)",
     rule=("evaluations = scenarios; non-trivial = trace with >=1 spawn and >=1 of {kill, signal, spawn failure}; distinct by abstract trace"),
@@ -219,7 +226,7 @@ prop(
     engine="pure",
     level="exploration",
     level_text=("seeded generation of filterer configurations (0-3 filter patterns, 0-3 ignore patterns with occasional negations, "
-                "0-2 extensions, 0-1 whitelisted file, 0-1 ignore file at the origin) over the glob grammar, each probed with 40 "
+                "0-2 extensions, 0-5 whitelisted files in arbitrary order, 0-1 ignore file at the origin) over the glob grammar, each probed with 40 "
                 "events (0-3 paths, file / dir / symlink / unknown type, inside and outside the origin). The verdict of the real "
                 "GlobsetFilterer::check_event is compared with the statement evaluated by an independent glob matcher; every "
                 "(pattern, path) pair is cross-checked against the ignore-crate primitive and a disagreement makes the case "
@@ -241,7 +248,8 @@ prop(
                 ".hgignore files (non-empty, empty, directories of that name) whose patterns ignore directories, files or nothing, "
                 "with negations; VCS metadata directories with decoy ignore files at the origin and deeper; origin-level files "
                 "(.git/info/exclude, core.excludesFile, .bzrignore, _darcs/prefs/boring, .fossil-settings/ignore-glob); explicit "
-                "ignore files and explicit watch lists. from_origin's result is compared as a set of (path, applies_in, applies_to) "
+                "ignore files and explicit watch lists (directories of the tree and / or paths outside the origin: a prefix-named "
+                "sibling, an unrelated tree, the origin's parent, the origin itself). from_origin's result is compared as a set of (path, applies_in, applies_to) "
                 "with an independent walker built on the C03 reference evaluator; the error list must be empty; the same logical "
                 "tree is re-created twice in different creation orders on tmpfs (/dev/shm lists in creation order) and must give "
                 "the same result"),
@@ -261,7 +269,9 @@ prop(
                 "--filter, --filter-file, --exts, --fs-events, all together}: the real argument pipeline and the real "
                 "WatchexecFilterer (hook H3) are built in an isolated fixture (fresh HOME / XDG_CONFIG_HOME, project with .git, "
                 ".gitignore, .ignore, global git ignore, global watchexec ignore, default-ignored paths) and probed with one event "
-                "per source. Oracle: a source-activation table written from the flags' help texts; explicit options never off"),
+                "per source; the explicit ignore file has a file-name line and lines naming directories (dir/, /rooted, name), probed "
+                "with files below those directories. Oracle: a source-activation table written from the flags' help texts; explicit "
+                "options never off"),
     level_note="one fixture layout; git config is isolated through HOME / XDG_CONFIG_HOME / GIT_CONFIG_NOSYSTEM; the end-to-end binary is not involved here",
     technique="exhaustive differential run of the real CLI filter construction against a source-activation table (reference-model monitor)",
     rule="evaluations = (flag subset, explicit option set) pairs, all distinct; each judges 1-7 explicit probes and 6 single-source probes",
@@ -324,7 +334,9 @@ prop(
                 "n-th, raise critical at the n-th, replace itself from inside, slow}. Oracle over the on_error log, the batches and "
                 "main()'s result: every fault id exactly once, the faulty event in no batch, all other accepted events delivered "
                 "(C01's oracle), main alive until the quit unless elevated / critical, then main ends with exactly that error and no "
-                "later batch; replacement takes effect for the next error only"),
+                "later batch; replacement takes effect for the next error only; a filter error counts as raised only if the recording "
+                "filter was called on the event well before the quit; on settled histories one configuration change makes at most "
+                "one registration attempt per path (a failed registration is reported once, not once per duplicate attempt)"),
     level_note=_RT_NOTE + "; watcher-callback faults (queue overflow) are covered at most once by construction of the oracle (at-most-once clause)",
     technique="fault injection at the filterer / watcher interface with an exactly-once checker over the error-handler log",
     rule="evaluations = scenarios; non-trivial = history with >=2 batches or a batch of >=2 events (synthetic) or >=2 watcher calls, distinct by abstract history",
@@ -344,7 +356,9 @@ prop(
                 "and attempt. Oracle at quiescence (recorder log stable, polled up to 2 s, heartbeat-guarded): exactly one live watcher "
                 "of the configured kind whose registered map (path -> recursion mode) equals the configured set minus paths whose last "
                 "watch attempt was made to fail; none when the set is empty; handler versions never go back; the reconfiguring "
-                "handler returns (10 s bounded progress)"),
+                "handler returns (10 s bounded progress); on settled histories (every change issued after the previous one was "
+                "applied; one scenario in four) a path is passed to watch() at most once per watcher instance and change unless it "
+                "was unwatched in between ('once per attempt')"),
     level_note=_RT_NOTE + "; the real notify watchers are not involved here (the fake records what the worker asks for)",
     technique="invariant check on hooked watcher state at quiescent points, with injected failures and injected re-entrancy at the watcher calls",
     rule="evaluations = scenarios; non-trivial = >=2 watch/unwatch calls, distinct by the sequence of watcher events (create / watch / unwatch / failures / drop)",
